@@ -1156,7 +1156,11 @@ def main(tier):
                 "the same file must be selected through every target above it; all decided against spec_list (proved = sel_spec), "
                 "implementation list compared with the model list; e2e: pyscn analyze --json --select complexity with default patterns and "
                 "with patterns of both syntaxes from -c / .pyscn.toml / pyproject.toml (pyscn analyze has no pattern flags), the full-syntax "
-                "lists judged from the project root, from pkg and for the target pkg/deep. "
+                "lists judged from the project root, from pkg and for the target pkg/deep; every tree also from a working directory that is not "
+                "above the target and has a configuration of its own (in it / above it x .pyscn.toml / pyproject.toml; its include list, exclude "
+                "list, recursive or all three differ, chosen so that applying it would change the selection), the target without any "
+                "configuration (root and a directory inside, spelled absolutely and as ../..) and with its own / a --config configuration: "
+                "the patterns in force are those of the target's configuration (rule of C17 with the working directory never consulted), else the built-in ones. "
                 "distinct = distinct (tree, cwd, targets, patterns, recursive)" % (
                     5 if thorough else 4, "alone, before and after every other atom, and in triples" if thorough else "alone and before and after each of 13 core atoms",
                     len(LATTICE_NAMES), len(LATTICE_SLASHLESS), len(LATTICE_PATHS)),
@@ -1164,6 +1168,7 @@ def main(tier):
                                    error_cases=stats["error_cases"], spelling_groups=stats.get("spelling_groups", 0),
                                    e2e_runs=stats["e2e_runs"], e2e_empty=stats["e2e_empty"],
                                    e2e_full_syntax_runs=stats.get("e2e_full_syntax_runs", 0),
+                                   **{k: v for k, v in sorted(stats.items()) if k.startswith("e2e_foreign_cwd")},
                                    lattice_patterns=len(LATTICE_SLASHLESS) + len(LATTICE_PATHS), lattice_target_pairs=stats.get("lattice_target_pairs", 0),
                                    known_class_separator_cases=stats.get("known_class_separator_cases", 0),
                                    unit_class_separator_skipped=stats.get("unit_class_separator_skipped", 0),
